@@ -71,3 +71,46 @@ def _rename(src, dst, suffix, prefix):
 
 if __name__ == "__main__":
     rename_tree(sys.argv[1], sys.argv[2])
+
+
+class _FlipCompare(ast.NodeTransformer):
+    FLIP = {ast.Lt: ast.Gt, ast.Gt: ast.Lt, ast.LtE: ast.GtE, ast.GtE: ast.LtE, ast.Eq: ast.Eq, ast.NotEq: ast.NotEq}
+
+    def visit_Compare(self, node):
+        self.generic_visit(node)
+        if len(node.ops) == 1 and type(node.ops[0]) in self.FLIP and not (isinstance(node.comparators[0], ast.Constant) and node.comparators[0].value is None):
+            return ast.copy_location(ast.Compare(left=node.comparators[0], ops=[self.FLIP[type(node.ops[0])]()], comparators=[node.left]), node)
+        return node
+
+
+class _MatMul(ast.NodeTransformer):
+    def visit_Call(self, node):
+        self.generic_visit(node)
+        if isinstance(node.func, ast.Attribute) and node.func.attr == "dot" and isinstance(node.func.value, ast.Name) and node.func.value.id == "np" \
+                and len(node.args) == 2 and not node.keywords:
+            return ast.copy_location(ast.BinOp(left=node.args[0], op=ast.MatMult(), right=node.args[1]), node)
+        return node
+
+
+class _SwapBranches(ast.NodeTransformer):
+    """`if c: A else: B` -> `if not c: B else: A` for plain if/else statements (no elif chains)"""
+    def visit_If(self, node):
+        self.generic_visit(node)
+        if node.orelse and not (len(node.orelse) == 1 and isinstance(node.orelse[0], ast.If)):
+            return ast.copy_location(ast.If(test=ast.UnaryOp(op=ast.Not(), operand=node.test), body=node.orelse, orelse=node.body), node)
+        return node
+
+
+TRANSFORMS = {"flip_comparisons": _FlipCompare, "matmul_operator": _MatMul, "swap_branches": _SwapBranches}
+
+
+def transform_tree(src, dst, kind):
+    """other whole-package behaviour-preserving respellings: every `a < b` written `b > a`; np.dot(a, b) written a @ b; if/else branches swapped"""
+    for root, dirs, files in os.walk(src):
+        for f in files:
+            if not f.endswith(".py") or f == "symmetry_data.py":
+                continue
+            p = os.path.join(root, f)
+            t = TRANSFORMS[kind]().visit(ast.parse(open(p).read()))
+            ast.fix_missing_locations(t)
+            open(os.path.join(dst, os.path.relpath(p, src)), "w").write(ast.unparse(t) + "\n")
